@@ -20,7 +20,7 @@ ID = "C06"
 LEVEL = "model_checking"
 RULE = (
     "every history of (releases in {0,1,2}, deaths in {none, lowest pid, highest pid, all}) per record interval up to the bound, "
-    "crossed with layout and output period, other dimensions (particle variables, reference time, numrec) assigned round-robin; "
+    "crossed with layout, output period and direction (forward; time-reversed for all histories up to 2 records and a quarter/all of the longer ones), other dimensions (particle variables, reference time, numrec) assigned round-robin; "
     "non-trivial = some particle dies before a later record AND some record holds >= 1 particle; lattice points distinct by construction"
 )
 RULE += " Beyond the lattice (chosen scenarios, not enumerated): crowds of 120-700 particles; a reference time in another century; every dense variable also read in one piece with sentinel-initialised buffers."
@@ -54,17 +54,21 @@ def cases(tier, seed):
                     combos = list(itertools.product(PVARS, REFS, b["numrec"]))
                 for pv, ref, numrec in combos:
                     out.append(dict(hist=[list(h) for h in hist], layout=layout, period=period, pvars=pv, ref=ref, numrec=numrec))
+                    # the same history in a time-reversed run: all histories up to 2 records, every fourth (every one in thorough) beyond
+                    if R <= 2 or tier == "thorough" or idx % 4 == 0:
+                        out.append(dict(hist=[list(h) for h in hist], layout=layout, period=period, pvars=pv, ref=ref, numrec=numrec, rev=True))
     # beyond the small lattice: a crowd (a death among hundreds must still be removed) and a reference time in another century
     for layout, (crowd, death) in itertools.product(b["layouts"], [(300, "low"), (700, "high"), (120, "low")]):
         out.append(dict(hist=[[crowd, death], [0, "high"], [1, "none"], [0, "low"]], layout=layout, period=1, pvars="float", ref="default", numrec=2))
-    for layout, pv in itertools.product(b["layouts"], ["time", "none"]):
-        out.append(dict(hist=[[2, "low"], [1, "none"], [0, "high"]], layout=layout, period=2, pvars=pv, ref="far", numrec=0))
+    for layout, pv, rev in itertools.product(b["layouts"], ["time", "none"], [False, True]):
+        out.append(dict(hist=[[2, "low"], [1, "none"], [0, "high"]], layout=layout, period=2, pvars=pv, ref="far", numrec=0, rev=rev))
     return out
 
 
 def plan(case):
     """Reference model of the history: rows to release, IBM kill script, expected living pids per record."""
     P = case["period"]
+    sign = -1 if case.get("rev") else 1
     R = len(case["hist"])
     nsteps = (R - 1) * P + 1 + (1 if P == 2 and R % 2 == 0 else 0)  # sometimes a trailing non-record step
     rows, kills, living, npid = [], {}, [], 0
@@ -75,8 +79,8 @@ def plan(case):
         for k in range(nrel):
             pid = npid
             npid += 1
-            info[pid] = dict(X=3.0 + (pid % 16) * 0.5 + 0.015625 * (pid // 16 % 8), Y=4.0 + (pid % 3), Z=1.0 + pid % 40, weight=10.0 + pid, t=S0 + s * DT)
-            rows.append(dict(release_time=world.iso(S0 + s * DT), X=info[pid]["X"], Y=info[pid]["Y"], Z=info[pid]["Z"], weight=info[pid]["weight"]))
+            info[pid] = dict(X=3.0 + (pid % 16) * 0.5 + 0.015625 * (pid // 16 % 8), Y=4.0 + (pid % 3), Z=1.0 + pid % 40, weight=10.0 + pid, t=S0 + sign * s * DT)
+            rows.append(dict(release_time=world.iso(S0 + sign * s * DT), X=info[pid]["X"], Y=info[pid]["Y"], Z=info[pid]["Z"], weight=info[pid]["weight"]))
             living.append(pid)
         rec_living.append(list(living))
         released_at_rec.append(npid)
@@ -98,6 +102,7 @@ def run_case(case):
 
     pl = plan(case)
     P, layout, numrec = case["period"], case["layout"], case["numrec"]
+    sign = -1 if case.get("rev") else 1
     d = util.scratch("c06")
     refsec = dict(default=None, earlier=S0 - 86400 * 3 - 11, later=S0 + 3600, far=world.tosec(FAR))[case["ref"]]
     state = dict(instance_variables=dict(age="float"), default_values=dict(age=0.0))
@@ -112,12 +117,12 @@ def run_case(case):
         state["particle_variables"]["release_time"] = "time"
         pout["release_time"] = world.ovar("f8", units="seconds since reference_time")
     conf = drive.analytic_conf(
-        d, S0, S0 + pl["nsteps"] * DT, DT, pl["rows"], outvars=("pid", "X", "Y", "Z", "age"), period=P * DT, numrec=numrec,
+        d, S0, S0 + sign * pl["nsteps"] * DT, DT, pl["rows"], reversed_=sign < 0, outvars=("pid", "X", "Y", "Z", "age"), period=P * DT, numrec=numrec,
         layout=layout, field="const", params=dict(a=0.125 / DT, b=-0.0625 / DT, L=100.0), state=state,
         ibm=dict(module=drive.plug("sibm.py"), kills={str(k): v for k, v in pl["kills"].items()}, age=True),
         particle_out=pout or None, reference=refsec,
     )
-    tag = f"hist={case['hist']} {layout} P={P} pvars={case['pvars']} ref={case['ref']} numrec={numrec}"
+    tag = f"hist={case['hist']} {'reversed ' if sign < 0 else ''}{layout} P={P} pvars={case['pvars']} ref={case['ref']} numrec={numrec}"
     died_before_later_record = any(pl["kills"].get(i * P) for i in range(len(case["hist"]) - 1))
     nontrivial = int(died_before_later_record and any(pl["rec_living"]))
     viols = []
@@ -145,7 +150,7 @@ def run_case(case):
     if len(recs) != R:
         bad("record-count", f"{len(recs)} records expected {R}")
         return util.result(nontrivial=nontrivial, viol=viols, outcomes=["record-count"])
-    exp_ref = min(S0, S0 + pl["nsteps"] * DT) if refsec is None else refsec
+    exp_ref = min(S0, S0 + sign * pl["nsteps"] * DT) if refsec is None else refsec
     for f in out["files"]:
         if f["units"] != f"seconds since {np.datetime64(int(exp_ref), 's')}":
             bad("time-units", f"{f['name']} time units {f['units']!r} expected reference {world.iso(exp_ref)}")
@@ -159,8 +164,8 @@ def run_case(case):
             bad("counts-vs-instance-dim", f"{f['name']}: sum(particle_count)={f['sum_count']} instance dimension={f['n_instance']}")
     for i, r in enumerate(recs):
         s = i * P
-        if r["time"] != float(S0 + s * DT):
-            bad("time-coordinate", f"record {i} decoded time-S0={r['time'] - S0} expected {s * DT}")
+        if r["time"] != float(S0 + sign * s * DT):
+            bad("time-coordinate", f"record {i} decoded time-S0={r['time'] - S0} expected {sign * s * DT}")
         snap = snaps[s]
         alive = snap["vars"]["alive"].astype(bool)
         spid = snap["vars"]["pid"][alive].tolist()
